@@ -210,7 +210,10 @@ def identifier_escape_texts():
             '\\u0020', '\\u005c', '\\u002e', '\\u2028', '\\u002d', '\\u00zz', '\\u12', '\\x41', '\\',
             '\\u{61}', '\\U0061', '\\u0069f',
             # escapes that stand for line terminators and white space (a pattern anchored with '$' lets a final LF through)
-            '\\u000a', '\\u000d', '\\u2029', '\\u0009', '\\u00a0', '\\ufeff', '\\u000A', '\\u0085']
+            '\\u000a', '\\u000d', '\\u2029', '\\u0009', '\\u00a0', '\\ufeff', '\\u000A', '\\u0085',
+            # spellings that stand for a reserved word (alone they are no identifier, only a property name) or for get / set
+            'v\\u0061r', '\\u0074his', 'i\\u006e', 'cl\\u0061ss', 'nul\\u006c', 't\\u0072ue', '\\u0067et',
+            '\\u0069\\u0066']
     for esc in escs:
         for name in ('%s', 'a%s', 'a%sb', 'ab1%s', '%sb', '\\u0061%s', 'a%s\\u0062', '$_%sx'):
             for ctxt in ('%s', 'x = %s;', 'var %s = 1', 'a.%s', 'f(%s)', '({%s: 1})', 'function %s() {}',
